@@ -1053,5 +1053,23 @@ func (t *proofTarget) FixedPlans(rng *rand.Rand) []fixedPlan {
 }
 
 func (t *writelogTarget) FixedPlans(rng *rand.Rand) []fixedPlan {
-	return plainPlans(rng, t.seeds, func(i int, _ *Seed) string { return fmt.Sprintf("s=%d;db=%s", i, []string{"b", "p"}[i%2]) })
+	out := plainPlans(rng, t.seeds, func(i int, _ *Seed) string { return fmt.Sprintf("s=%d;db=%s", i, []string{"b", "p"}[i%2]) })
+	// Write logs whose keys are as long as the node format's 16-bit bit-length field allows,
+	// and longer (8191 bytes = 65528 bits is the last length the field can express).
+	var long []*Input
+	for _, n := range []int{4096, 8190, 8191, 8192, 8193, 16384, 65535, 65536} {
+		k := bytes.Repeat([]byte{'x'}, n)
+		k2 := append(bytes.Repeat([]byte{'x'}, n-1), 'y')
+		for vi, wl := range []writelog.WriteLog{
+			{{Key: k, Value: []byte("v")}},
+			{{Key: k, Value: []byte("v")}, {Key: k2, Value: []byte("w")}},
+			{{Key: []byte("a"), Value: []byte("1")}, {Key: k, Value: []byte("v")}, {Key: k[:n/2], Value: []byte("h")}},
+			{{Key: k, Value: nil}},
+		} {
+			for _, db := range []string{"b", "p"} {
+				long = append(long, &Input{Data: cbor.Marshal(wl), Aux: fmt.Sprintf("s=0;db=%s", db), Op: fmt.Sprintf("long-key/%d-bytes/shape-%d", n, vi)})
+			}
+		}
+	}
+	return append(out, newExplicitPlan(len(long), func(i int) *Input { return long[i] }))
 }
